@@ -51,6 +51,10 @@ LEVEL.update({
  "C20":("pool hygiene and _node freshness on the real javascript.go code: two consecutive calls over every subset of argument names (incl. a built-in's name), first script returning or throwing, the second call getting the pooled VM: the globals visible to the second script are exactly the built-ins plus its own arguments; _node of a node built from recycled memory; the stale _node of a changing ancestor is the recorded finding F5",
         "goja is modelled by its global-variable table (the JS engine itself — value mapping, NaN/null rejection, exceptions — is outside); natively the real goja runs the equivalent script"),
 })
+LEVEL.update({
+ "C18":("the real reader stack NewTransform builds (charset decoder selection, x/text charmap decoder and transform.Reader, BOM strip through bufio.ReadRune) executed symbolically on arbitrary bytes: the bytes handed to the format reader equal stripLeadingBOM(decode(input)) for an independent code-page table, for every declared encoding",
+        "inputs ≤ bound bytes; undefined windows-1252 bytes excluded; that equal bytes give equal results downstream is each format reader's determinism (C15)"),
+})
 REASON_NOT_YET="check under construction in this session (see DESIGN.md §6); not claimed yet"
 m={
  "version":1,
